@@ -121,9 +121,44 @@ let parse_cfg s =
     | 'w' -> w := v <> "0" | 'n' -> nn := n_of_string v | _ -> failwith "cfg") (String.split_on_char '.' s);
   { cf_grease = !g; cf_mfs = !m; cf_ext = !x; cf_wt = !w; cf_dgram = !d; cf_wtn = !nn }
 
-(* QPACK size (RFC 9204 4.1 / RFC 9114 4.2.2) of the request the harness's scripted client sends:
-   :method GET, :scheme https, :authority a, :path /  =  42 + 44 + 43 + 38 *)
-let scripted_request_size = 167
+(* the requests the harness's scripted client can send (harness/src/bin/c14.rs request_bytes), as the receive side
+   sorts them: `Req size` = a valid request whose field section has that RFC 9114 4.2.2 size (name + value + 32 per
+   line), `Malformed size` = decodes but is not a request (stream error), `ConnErr` = a connection error, `Nothing` =
+   the stream ends (FIN / RESET / never) before a HEADERS frame *)
+type reqkind = Req of int | Malformed of int | ConnErr | Nothing
+let request_kind = function
+  | "get" | "unk" | "" -> Req 167      (* :method GET 42, :scheme https 44, :authority a 43, :path / 38 *)
+  | "post" -> Req 168
+  | "connect" -> Req 89                (* :method CONNECT 46, :authority a 43 *)
+  | "big" -> Req 400                   (* the GET plus x: <200 bytes> = 233 *)
+  | "nometh" -> Malformed 38
+  | "badqpack" | "data1st" -> ConnErr
+  | "none" -> Nothing
+  | k -> failwith ("request kind " ^ k)
+
+(* a control frame of the peer, as poll_control and the role handlers sort it *)
+let supported_settings = List.map n_of_int [1; 6; 7; 8; 0x33; 0x2b603742; 0x2b603743]
+let classify_control (ty, payload) =
+  let single () = match rfc_read_varint payload with Some (v, []) -> Some v | _ -> None in
+  match int_of_n ty with
+  | 4 ->
+      (match rfc_settings_pairs payload with
+       | None -> PIllegal
+       | Some l ->
+           let ids = List.map fst l in
+           let sup = List.filter (fun i -> List.mem i supported_settings) ids in
+           if List.exists rfc_h2_setting ids || List.length (List.sort_uniq compare sup) <> List.length sup then PIllegal
+           else PSettings)
+  | 7 -> (match single () with Some v -> PGoaway v | None -> PIllegal)
+  | 3 | 13 -> (match single () with Some _ -> PPush | None -> PIllegal)
+  | 0 | 1 | 5 | 2 | 6 | 8 | 9 | 65 -> PIllegal
+  | _ -> PSkipped
+let rec control_frames bs =
+  match bs with
+  | [] -> []
+  | _ -> (match rfc_read_frame bs with
+          | Some (f, rest) -> classify_control f :: control_frames rest
+          | None -> [])       (* an incomplete frame stays buffered *)
 
 let show_streams c =
   let ss = List.sort (fun a b -> compare (int_of_n a.s_id) (int_of_n b.s_id)) c.c_streams in
@@ -160,20 +195,39 @@ let run_wr role cfgs prog =
     let failed = ref false in
     let cur = ref None in
     let next_peer = ref 0 in
+    let peer_open = ref false in
     let do_step o = if not !failed then (match step !c o with Ok c' -> c := c' | _ -> failed := true) in
     let ops = if prog = "-" then [] else String.split_on_char ',' prog in
     List.iter (fun o ->
       let (k, a) = split2 o ':' in
       let nh () = List.length !c.c_handles in
       match k with
-      | "peer" -> do_step (OPeerFrame (N0, N0, None))
-      | "poll" -> ()
+      | "peer" | "pframe" ->
+          let bytes = bytes_of_hex (if a = "" then "000400" else a) in
+          let frames =
+            if k = "peer" then (match rfc_read_varint bytes with
+                                | Some (t, rest) when t = N0 -> peer_open := true; control_frames rest
+                                | _ -> [])
+            else if !peer_open then control_frames bytes else [] in
+          List.iter (fun f -> do_step (OPeerControl (f, N0, N0, None))) frames;
+          if server then do_step OPoll
+      | "poll" -> if server then do_step OPoll
       | "acc" when server ->
           let sid = !next_peer in next_peer := sid + 4;
           let before = nh () in
-          let too = if N.ltb cfg.cf_mfs (n_of_int scripted_request_size) then Some [] else None in
-          do_step (OAccept (n_of_int sid, too));
+          let (kind, fin) = split2 a ':' in
+          let stopped = fin <> "" && fin.[0] = 'S' in
+          let small sz = N.ltb cfg.cf_mfs (n_of_int sz) in
+          let too = if stopped then AFailed false else ATooLarge [] in
+          let out = (match request_kind kind with
+            | Req sz -> if small sz then too else AHandle stopped
+            | Malformed sz -> if small sz then too else AFailed false
+            | ConnErr -> AFailed true
+            | Nothing -> AFailed false) in
+          do_step (OAccept (n_of_int sid, out));
           if nh () > before then cur := Some (nh () - 1)
+      | "recv" | "rehdr" -> ()
+      | "sstop" -> (match !cur with Some h -> do_step (OStopSending (n_of_int h)) | None -> ())
       | "req" when not server ->
           let before = nh () in
           do_step (ORequest (Some []));
